@@ -136,6 +136,24 @@ func VerifC20Concurrent(pair int) {
 	case 2: // Put racing Shutdown
 		verifrt.Go(func() { kept = p.Put("x", b) })
 		verifrt.Go(func() { p.Shutdown() })
+	case 4: // two first Puts of one new backend at the same time: both accepted connections stay accounted for
+		c := &verifConn{id: 2}
+		var kept2 bool
+		verifrt.Go(func() { kept = p.Put("y", b) })
+		verifrt.Go(func() { kept2 = p.Put("y", c) })
+		verifrt.WaitAll()
+		idle, _ := p.Stats("y")
+		n := 0
+		if kept {
+			n++
+		}
+		if kept2 {
+			n++
+		}
+		verifrt.Assert(idle == n, "every connection a concurrent first Put accepted is accounted as idle")
+		p.Shutdown()
+		verifrt.Assert((!kept || b.closed) && (!kept2 || c.closed), "Shutdown closes every connection the pool accepted (concurrent first Puts)")
+		return
 	case 3: // the first Put of a backend the pool has not seen yet, racing Shutdown
 		verifrt.Go(func() { kept = p.Put("y", b) })
 		verifrt.Go(func() { p.Shutdown() })
